@@ -105,7 +105,11 @@ func (c *Ctx) c01Text(s *Sub, sub, text string, enum bool) {
 		viol("panic", "parser panicked: "+fr.Panic, "", "")
 	}
 	if !rp.OK {
-		// acceptance itself is C08's business; here only trees of accepted programs
+		// which texts are accepted is C08's business; but a text the implementation accepts although the ladder
+		// gives it no tree at all is an accepted program that did not get the tree the ladder prescribes
+		if !fr.HadError && fr.Panic == "" {
+			viol("accepted-without-ladder-tree", fmt.Sprintf("the ladder derives no tree for this text (first non-viable token #%d), yet it was accepted", rp.ErrTok), "rejected", "accepted")
+		}
 		return
 	}
 	if fr.HadError {
